@@ -1,7 +1,7 @@
 package refexp
 
 var Ops = []string{"", ":-", "-", ":=", "=", ":?", "?", ":+", "+", "len", "%", "%%", "#", "##"}
-var Values = []string{"abc", "a b", "a,b:c", "x*y", "日本語", "foo/bar/baz", " lead", "trail,"}
+var Values = []string{"abc", "a b", "a,b:c", "x*y", "日本語", "foo/bar/baz", " lead", "trail,", `a\b\c`}
 var IFSs = []struct {
 	V   string
 	Set bool
@@ -17,6 +17,8 @@ func Words(op string, value string) [][]WP {
 			{{Kind: "lit", Text: "/*"}}, {{Kind: "lit", Text: "*/"}}, {{Kind: "lit", Text: "[a-c]"}}, {{Kind: "lit", Text: "[!a]*"}},
 			{{Kind: "var"}}, {{Kind: "lit", Text: "*"}, {Kind: "sq", Text: "*"}},
 			{{Kind: "assign"}}, {{Kind: "arith"}}, {{Kind: "lit", Text: "*"}, {Kind: "assign"}},
+			// a quoted backslash is an ordinary character of the pattern
+			{{Kind: "sq", Text: `\`}, {Kind: "lit", Text: "*"}}, {{Kind: "lit", Text: "*"}, {Kind: "sq", Text: `\c`}}, {{Kind: "lit", Text: "*"}, {Kind: "dq", Text: `\`}}, {{Kind: "sq", Text: `a\`}},
 		}
 		rs := []rune(value)
 		if len(rs) >= 2 {
